@@ -384,15 +384,18 @@ def check(prop, tier, seed, only_legs=None):
         agg = run_leg(prop, leg, tier, seed, out)
         aggs.append((leg, agg))
         harness_errors.extend(agg["harness_errors"])
+        _known = load_known()
+        nkn = sum(1 for v in agg["violations"] if any(known_match(mod, e, dict(v, leg=leg["name"])) for e in _known))
         print(
-            "  leg %-22s py%-5s runs=%d/%d covers=%d violations=%d crashes=%d %.1fs%s"
+            "  leg %-22s py%-5s runs=%d/%d covers=%d violations=%d%s crashes=%d %.1fs%s"
             % (
                 leg["name"],
                 leg["python"],
                 agg["runs"],
                 agg["planned"],
                 len(agg["covers"]),
-                len(agg["violations"]),
+                len(agg["violations"]) - nkn,
+                (" known-finding-instances=%d" % nkn) if nkn else "",
                 agg["crashes"],
                 agg["wall_s"],
                 " (time-capped)" if agg["timed_out"] else "",
@@ -437,6 +440,18 @@ def check(prop, tier, seed, only_legs=None):
         leg, v = groups[key]
         if reported >= 6:
             break
+        # a listed finding is recognised by what it is, not by its smallest instance: no need to minimise
+        pre = None
+        for entry in known:
+            if known_match(mod, entry, v):
+                pre = entry
+                break
+        if pre is not None:
+            n_known += 1
+            line = "KNOWN-FINDING: property=%s %s [%s]" % (prop, pre.get("what", ""), pre.get("id", ""))
+            if line not in known_lines:
+                known_lines.append(line)
+            continue
         v2, shrunk = shrink_violation(prop, leg, v, shrink_budget)
         rec = {
             "property": prop,
